@@ -174,7 +174,7 @@ def run(ctx):
                        'fixed-length sub-items 51H/53H built with their standard item_length 4',
                        'UID compared as str; reserved3 passed as tuple']
     if ctx.thorough:
-        parallel(ctx, shard, [{'adj': 6, 'n': 4000} for _ in range(16)])
+        parallel(ctx, shard, [{'adj': 10, 'n': 15000} for _ in range(16)])
     else:
         run_adjacency(ctx, 3)
         run_random(ctx, 2000)
